@@ -217,6 +217,8 @@ def _unary(spec, x, ent, base_obj):
         except Exception as e:
             rec(spec.fid('create'), C_STORE, False, 'raised ' + _exc(e))
     # serialisation
+    if getattr(spec, 'extra_unary', None) is not None:
+        out.extend(spec.extra_unary(x, ent))
     if spec.to_dict is not None:
         d = None
         try:
@@ -623,8 +625,8 @@ def _parameter_wf(tier):
 
     fid = _fid(Parameter, 'create')
     nan, inf = math.nan, math.inf
-    inits = [-inf, -1.0, 0.0, 0.5, 1.0, inf, nan]
-    bounds = [None, -inf, -1.0, 0.0, 0.5, 1.0, inf, nan]
+    inits = [0.5, 0.0, 1.0, -1.0, inf, -inf, nan]
+    bounds = [None, 0.0, 0.5, 1.0, -1.0, -inf, inf, nan]
     if tier == 'thorough':
         inits = inits + [-0.5, 2.0, 1e-300]
         bounds = bounds + [-0.5, 2.0, 1e-300]
@@ -1191,8 +1193,7 @@ def _varhier_entries(tier):
     sames = [{'levels': [R, O]}, {'levels': VariabilityHierarchy((R, O))}]
     extra = [('ctor', lambda: VariabilityHierarchy((R, O)), 'base'),
              ('add', lambda: VariabilityHierarchy.create((R,)) + O, 'base'),
-             ('radd', lambda: R + VariabilityHierarchy.create((o,)).replace(levels=(lv['o'],))
-               if False else VariabilityHierarchy.create((R,)) + O, 'base'),
+             ('radd', lambda: R + VariabilityHierarchy((O,)), 'base'),
              ('index', lambda: VariabilityHierarchy.create((C, R, O))[['IIV', 'IOV']], 'base'),
              ('replace', lambda: VariabilityHierarchy.create((R,)).replace(levels=(R, O)), 'base'),
              ('empty ctor', lambda: VariabilityHierarchy(), 'levels=None')]
@@ -1331,7 +1332,7 @@ def _rvs_entries(tier):
     other_eta = VariabilityHierarchy.create([VariabilityLevel.create('IIV', True, 'ID')])
     other_eps = VariabilityHierarchy.create([VariabilityLevel.create('RUV', True, 'ID')])
     base = dict(dists=(N1, J23, E), eta_levels=None, epsilon_levels=None)
-    alts = [{'dists': ()}, {'dists': None}, {'dists': (N1,)}, {'dists': N1}, {'dists': (J23, N1, E)},
+    alts = [{'dists': ()}, {'dists': None}, {'dists': (J23, N1, E)},
             {'dists': (N1b, J23, E)}, {'dists': (N1, J23)}, {'dists': (J12, E)}, {'dists': (N1, N2, E)},
             {'eta_levels': other_eta}, {'epsilon_levels': other_eps}]
     sames = [{'dists': [N1, J23, E]}, {'eta_levels': dflt_eta}, {'epsilon_levels': dflt_eps}]
@@ -1340,13 +1341,13 @@ def _rvs_entries(tier):
              ('add list', lambda: RandomVariables.create((N1,)) + [J23, E], 'base'),
              ('add rvs', lambda: RandomVariables.create((N1,)) + RandomVariables.create((J23, E)), 'base'),
              ('radd', lambda: N1 + RandomVariables.create((J23, E)), 'base'),
-             ('slice', lambda: RandomVariables.create((N1, J23, E, N2))[0:3] if False else
-              RandomVariables.create((N1, J23, E))[0:3], 'base'),
+             ('slice', lambda: RandomVariables.create((N1, J23, E))[0:3], 'base'),
              ('replace', lambda: RandomVariables.create((N1,)).replace(dists=(N1, J23, E)), 'base'),
-             ('single', lambda: RandomVariables.create(N1), 'dists=(ETA1 ~ N(0, OM1),)'),
+             ('one dist', lambda: RandomVariables.create((N1,)), None),
+             ('one dist:bare', lambda: RandomVariables.create(N1), 'one dist'),
              ('unjoin', lambda: RandomVariables.create((J12, E)).unjoin('ETA1'), None),
-             ('etas', lambda: RandomVariables.create((N1, J23, E)).etas, 'dists=(ETA1 ~ N(0, OM1), ' + 'J23)'
-              if False else None)]
+             ('etas', lambda: RandomVariables.create((N1, J23, E)).etas, None),
+             ('etas#2', lambda: RandomVariables.create((N1, J23)), 'etas')]
     return _perturb(RandomVariables.create, base, alts, sames, extra)
 
 
@@ -1406,3 +1407,505 @@ def _rvs_wf(tier):
                      ('RandomVariables + dist of unknown level',
                       lambda: RandomVariables.create([]) + al['N1'].replace(level='XYZ'))]:
         yield what, (lambda what=what, th=th: _wf_expect_error(fidc, what, th))
+
+
+# ------------------------------------------------------------------------------------------------
+# specs: execution steps
+# ------------------------------------------------------------------------------------------------
+def _execstep_entries(tier):
+    from pharmpy.internals.immutable import frozenmapping
+    from pharmpy.model.execution_steps import ExecutionStep
+
+    def mk(**kw):
+        kw = dict(kw)
+        kw['tool_options'] = frozenmapping(kw['tool_options'])
+        return ExecutionStep(**kw)
+
+    base = dict(solver='LSODA', solver_rtol=3, solver_atol=4, tool_options={'A': 1, 'B': 2})
+    alts = [{'solver': None}, {'solver': 'CVODES'}, {'solver_rtol': None}, {'solver_rtol': 5}, {'solver_atol': 5},
+            {'tool_options': {}}, {'tool_options': {'A': 1, 'B': 3}}, {'tool_options': {'A': 1}}]
+    sames = [{'tool_options': {'B': 2, 'A': 1}}]
+    return _perturb(mk, base, alts, sames, [('defaults', lambda: ExecutionStep(), None),
+                                            ('defaults#2', lambda: ExecutionStep(), 'defaults')])
+
+
+def _eststep_entries(tier):
+    from pharmpy.basic import Expr
+    from pharmpy.model import EstimationStep
+
+    e1, e2, eps = Expr.symbol('ETA1'), Expr.symbol('ETA2'), Expr.symbol('EPS1')
+    base = dict(method='FOCE', interaction=True, parameter_uncertainty_method='SANDWICH', evaluation=False,
+                maximum_evaluations=9999, laplace=False, isample=None, niter=None, auto=None,
+                keep_every_nth_iter=None, residuals=('CWRES', 'RES'), predictions=('IPRED', 'PRED'),
+                solver=None, solver_rtol=None, solver_atol=None, tool_options={'SIGL': 9, 'NSIG': 3},
+                derivatives=((e1,), (eps, e1)), individual_eta_samples=False)
+    alts = [{'method': 'FO'}, {'method': 'IMP'}, {'interaction': False}, {'parameter_uncertainty_method': None},
+            {'parameter_uncertainty_method': 'SMAT'}, {'evaluation': True}, {'maximum_evaluations': None},
+            {'maximum_evaluations': 1}, {'laplace': True}, {'isample': 10}, {'niter': 5}, {'auto': True},
+            {'auto': False}, {'keep_every_nth_iter': 2}, {'residuals': ()}, {'residuals': ('CWRES',)},
+            {'predictions': ()}, {'predictions': ('PRED',)}, {'solver': 'LSODA'}, {'solver': 'CVODES'},
+            {'solver_rtol': 3}, {'solver_atol': 4}, {'tool_options': {}}, {'tool_options': {'SIGL': 9}},
+            {'tool_options': {'SIGL': 9, 'NSIG': 4}}, {'derivatives': ()}, {'derivatives': ((e1,),)},
+            {'derivatives': ((e2,), (eps, e1))}, {'individual_eta_samples': True}]
+    sames = [{'method': 'foce'}, {'parameter_uncertainty_method': 'sandwich'}, {'residuals': ['RES', 'CWRES']},
+             {'predictions': ['PRED', 'IPRED']}, {'tool_options': {'NSIG': 3, 'SIGL': 9}},
+             {'derivatives': [[e1, eps], [e1]]}, {'individual_eta_samples': 0}]
+    extra = [
+        ('replace()', lambda: EstimationStep.create(**base).replace(), 'base'),
+        ('replace(method)', lambda: EstimationStep.create(**dict(base, method='FO')).replace(method='FOCE'), 'base'),
+        ('solver', lambda: EstimationStep.create(**dict(base, solver='LSODA')), None),
+        ('solver:lower case', lambda: EstimationStep.create(**dict(base, solver='lsoda')), 'solver'),
+        ('defaults', lambda: EstimationStep.create('FOCE'), None),
+        ('defaults:ctor', lambda: EstimationStep('FOCE'), 'defaults'),
+        ('defaults:lists', lambda: EstimationStep.create('FOCE', residuals=[], predictions=[], tool_options={},
+                                                         derivatives=[]), 'defaults'),
+        ('tool options 3', lambda: EstimationStep.create('FOCE', tool_options={'A': 1, 'B': 2, 'C': 3}), None),
+        ('tool options 3 rotated', lambda: EstimationStep.create('FOCE', tool_options={'C': 3, 'A': 1, 'B': 2}),
+         'tool options 3'),
+    ]
+    return _perturb(EstimationStep.create, base, alts, sames, extra)
+
+
+def _eststep_wf(tier):
+    from pharmpy.model import EstimationStep
+
+    fid = _fid(EstimationStep, 'create')
+    bad = [('method', 'XYZ'), ('maximum_evaluations', 0), ('maximum_evaluations', -1),
+           ('parameter_uncertainty_method', 'XYZ'), ('solver', 'XYZ'), ('residuals', 5), ('predictions', 5),
+           ('derivatives', ((1,),)), ('derivatives', 5), ('derivatives', (('ETA1',),))]
+    for f, v in bad:
+        kw = {'method': 'FOCE', f: v}
+        what = f'EstimationStep.create({kw})'
+        yield what, (lambda what=what, kw=kw: _wf_expect_error(fid, what, lambda: EstimationStep.create(**kw)))
+    for f, v in bad:
+        what = f'EstimationStep.create(FOCE).replace({f}={v!r})'
+        yield what, (lambda what=what, f=f, v=v: _wf_expect_error(
+            _fid(EstimationStep, 'replace'), what, lambda: EstimationStep.create('FOCE').replace(**{f: v})))
+
+
+def _simstep_entries(tier):
+    from pharmpy.model import SimulationStep
+
+    base = dict(n=2, seed=1234, solver=None, solver_rtol=None, solver_atol=None, tool_options={})
+    alts = [{'n': 1}, {'n': 10}, {'seed': 1}, {'solver': 'LSODA'}, {'solver_rtol': 3}, {'solver_atol': 4},
+            {'tool_options': {'A': 1}}, {'tool_options': {'A': 1, 'B': 2}}]
+    sames = []
+    extra = [('replace()', lambda: SimulationStep.create(**base).replace(), 'base'),
+             ('replace(n)', lambda: SimulationStep.create(**dict(base, n=5)).replace(n=2), 'base'),
+             ('defaults', lambda: SimulationStep.create(), None),
+             ('defaults:ctor', lambda: SimulationStep(), 'defaults'),
+             ('ctor solver', lambda: SimulationStep(n=2, seed=1234, solver='LSODA'), None),
+             ('replace solver', lambda: SimulationStep.create(n=2, seed=1234).replace(solver='LSODA'), 'ctor solver')]
+    return _perturb(SimulationStep.create, base, alts, sames, extra)
+
+
+def _simstep_wf(tier):
+    from pharmpy.model import SimulationStep
+
+    fid = _fid(SimulationStep, 'create')
+    for what, th in [('SimulationStep.create(n=0)', lambda: SimulationStep.create(n=0)),
+                     ('SimulationStep.create(n=-1)', lambda: SimulationStep.create(n=-1)),
+                     ('SimulationStep.create(n=2).replace(n=0)', lambda: SimulationStep.create(n=2).replace(n=0)),
+                     ('SimulationStep.create(solver=XYZ)', lambda: SimulationStep.create(solver='XYZ'))]:
+        yield what, (lambda what=what, th=th: _wf_expect_error(fid, what, th))
+
+
+def _execsteps_entries(tier):
+    from pharmpy.basic import Expr
+    from pharmpy.model import EstimationStep, ExecutionSteps, SimulationStep
+
+    s1 = EstimationStep.create('FOCE', interaction=True, tool_options={'A': 1})
+    s1b = EstimationStep.create('FOCE', interaction=False, tool_options={'A': 1})
+    s2 = EstimationStep.create('IMP', evaluation=True, isample=1000, residuals=['CWRES'], predictions=['PRED'],
+                               derivatives=[[Expr.symbol('ETA1')]])
+    sim = SimulationStep.create(n=3)
+    base = dict(steps=(s1, s2))
+    alts = [{'steps': ()}, {'steps': None}, {'steps': (s1,)}, {'steps': (s2, s1)}, {'steps': (s1b, s2)},
+            {'steps': (s1, sim)}, {'steps': (sim,)}, {'steps': (s1, s2, sim)}, {'steps': (s1, s1)}]
+    sames = [{'steps': [s1, s2]}, {'steps': (EstimationStep.create('foce', interaction=True, tool_options={'A': 1}),
+                                             s2)}]
+    extra = [('ctor', lambda: ExecutionSteps((s1, s2)), 'base'),
+             ('add', lambda: ExecutionSteps.create((s1,)) + s2, 'base'),
+             ('add list', lambda: ExecutionSteps.create((s1,)) + [s2], 'base'),
+             ('add steps', lambda: ExecutionSteps.create((s1,)) + ExecutionSteps.create((s2,)), 'base'),
+             ('radd', lambda: s1 + ExecutionSteps.create((s2,)), 'base'),
+             ('slice', lambda: ExecutionSteps.create((s1, s2, sim))[0:2], 'base'),
+             ('replace', lambda: ExecutionSteps.create((sim,)).replace(steps=[s1, s2]), 'base'),
+             ('empty ctor', lambda: ExecutionSteps(), 'steps=()')]
+    return _perturb(ExecutionSteps.create, base, alts, sames, extra)
+
+
+# ------------------------------------------------------------------------------------------------
+# spec: Model
+# ------------------------------------------------------------------------------------------------
+_CACHE = {}
+
+
+def _pheno():
+    if 'pheno' not in _CACHE:
+        from pharmpy.modeling import load_example_model
+
+        _CACHE['pheno'] = load_example_model('pheno')
+    return _CACHE['pheno']
+
+
+def _pheno_fresh():
+    """parsed again from the file (not the cached object)"""
+    from pharmpy.internals.fs.path import path_absolute  # noqa: F401
+    from pharmpy.model import Model
+
+    return Model.parse_model(_pheno().datainfo.path.parent / 'pheno.mod')
+
+
+def _reversed_odes(model):
+    """the same compartmental system with compartments and flows inserted in the reverse order"""
+    from pharmpy.model import CompartmentalSystem, CompartmentalSystemBuilder, Statements, output
+
+    odes = model.statements.ode_system
+    names = odes.compartment_names
+    comps = [odes.find_compartment(n) for n in names]
+    flows = []
+    for src in comps:
+        for dst in comps + [output]:
+            if dst is src:
+                continue
+            rate = odes.get_flow(src, dst)
+            if rate != 0:
+                flows.append((src, dst, rate))
+    cb = CompartmentalSystemBuilder()
+    for c in reversed(comps):
+        cb.add_compartment(c)
+    for src, dst, rate in reversed(flows):
+        cb.add_flow(src, dst, rate)
+    new = CompartmentalSystem.create(cb, t=odes.t)
+    stats = model.statements
+    return model.replace(statements=Statements.create(
+        tuple(stats.before_odes) + (new,) + tuple(stats.after_odes)))
+
+
+def _model_variants():
+    """label -> (thunk, same_as)"""
+    import pandas as pd
+
+    from pharmpy import modeling as mo
+    from pharmpy.basic import Expr
+    from pharmpy.model import EstimationStep, ExecutionSteps, Model
+
+    m = _pheno
+
+    def cell():
+        df = m().dataset.copy()
+        df.loc[df.index[3], 'WGT'] = df.loc[df.index[3], 'WGT'] + 1.0
+        return m().replace(dataset=df)
+
+    def newcol():
+        df = m().dataset.copy()
+        df['NEW'] = 1.0
+        return m().replace(dataset=df)
+
+    def iie():
+        return m().replace(initial_individual_estimates=pd.DataFrame({'ETA_CL': [0.1, 0.2], 'ETA_VC': [0.0, 0.1]},
+                                                                    index=[1, 2]))
+
+    def toolopts(d):
+        st = m().execution_steps[0].replace(tool_options=d)
+        return m().replace(execution_steps=ExecutionSteps.create([st]))
+
+    return {
+        'pheno': (lambda: m(), None),
+        'pheno:parsed again': (_pheno_fresh, 'pheno'),
+        'pheno:generic': (lambda: mo.convert_model(m(), 'generic'), 'pheno'),
+        'pheno:replace()': (lambda: m().replace(), 'pheno'),
+        'pheno:name': (lambda: m().replace(name='other'), 'pheno'),
+        'pheno:description': (lambda: m().replace(description='another description'), 'pheno'),
+        'pheno:datainfo path': (lambda: m().replace(datainfo=m().datainfo.replace(path='/nonexistent/x.csv')), 'pheno'),
+        'pheno:dataset copy': (lambda: m().replace(dataset=m().dataset.copy()), 'pheno'),
+        'pheno:from_dict': (lambda: Model.from_dict(Model.to_dict(m())), None),
+        'init': (lambda: mo.set_initial_estimates(m(), {'POP_CL': 0.01}), None),
+        'init:two steps': (lambda: mo.set_initial_estimates(mo.set_initial_estimates(m(), {'POP_CL': 0.02}),
+                                                            {'POP_CL': 0.01}), 'init'),
+        'fix': (lambda: mo.fix_parameters(m(), ['POP_CL']), None),
+        'lower bound': (lambda: mo.set_lower_bounds(m(), {'POP_CL': 0.001}), None),
+        'peripheral': (lambda: mo.add_peripheral_compartment(m()), None),
+        'peripheral:odes built in reverse order': (lambda: _reversed_odes(mo.add_peripheral_compartment(m())),
+                                                   'peripheral'),
+        'absorption': (lambda: mo.set_first_order_absorption(m()), None),
+        'error model': (lambda: mo.set_additive_error_model(m()), None),
+        'statement': (lambda: m().replace(statements=m().statements.reassign('S1', Expr.symbol('VC') * 2)), None),
+        'remove iiv': (lambda: mo.remove_iiv(m(), 'CL'), None),
+        'joint iiv': (lambda: mo.create_joint_distribution(m()), None),
+        'estimation method': (lambda: mo.set_estimation_step(m(), 'FO', 0), None),
+        'estimation option': (lambda: mo.set_estimation_step(m(), 'FOCE', 0, interaction=False), None),
+        'estimation added': (lambda: mo.add_estimation_step(m(), 'IMP'), None),
+        'tool options': (lambda: toolopts({'A': 1, 'B': 2}), None),
+        'tool options:other order': (lambda: toolopts({'B': 2, 'A': 1}), 'tool options'),
+        'dataset cell': (cell, None),
+        'dataset column': (newcol, None),
+        'individual estimates': (iie, None),
+        'dependent variables': (lambda: m().replace(dependent_variables={Expr.symbol('Y'): 2}), None),
+        'observation transformation': (lambda: m().replace(
+            observation_transformation={Expr.symbol('Y'): Expr.symbol('Y').log()}), None),
+        'value type': (lambda: m().replace(value_type='LIKELIHOOD'), None),
+        'empty': (lambda: Model.create('empty'), None),
+        'empty#2': (lambda: Model(), 'empty'),
+    }
+
+
+def _model_entries(tier):
+    return [Entry(label, th, same_as=same) for label, (th, same) in _model_variants().items()]
+
+
+def _model_extra_unary(x, ent):
+    """generic code round trip"""
+    from pharmpy.model import Model
+    from pharmpy.model.external.generic import convert_model, parse_model
+
+    fid = _fid(parse_model)
+    try:
+        g = convert_model(x)
+        code = g.code
+        back = Model.parse_model_from_string(code)
+        ok = _eq(back, g) and _eq(g, back) and _eq(back, x)
+        det = f'parse_model_from_string(generic.code) == generic is {_eq(back, g)}'
+        if not ok:
+            parts = [k for k in ('parameters', 'random_variables', 'statements', 'execution_steps', 'datainfo',
+                                 'dependent_variables', 'observation_transformation', 'value_type')
+                     if not _safe_eq(getattr(back, k), getattr(g, k))]
+            det += f'; differing parts: {parts}'
+        else:
+            hash(back)
+        return [(fid, C_GENERIC, ok, det)]
+    except Exception as e:
+        return [(fid, C_GENERIC, False, 'raised ' + _exc(e))]
+
+
+def _ref_statements_wellformed(seq, known):
+    """property statement: every symbol used in a statement is a parameter, random variable, data column,
+    the time variable or defined by an earlier statement"""
+    defined = set(known)
+    for lhs, rhs_symbols in seq:
+        if not set(rhs_symbols) <= defined:
+            return False
+        defined.add(lhs)
+    return True
+
+
+def _model_wf(tier):
+    from pharmpy.model import (
+        Assignment,
+        DataInfo,
+        Model,
+        NormalDistribution,
+        Parameter,
+        Parameters,
+        RandomVariables,
+        Statements,
+    )
+
+    params = Parameters.create([Parameter.create('TH', 1.0), Parameter.create('OM', 0.1)])
+    rvs = RandomVariables.create([NormalDistribution.create('ETA', 'iiv', 0, 'OM')])
+    di = DataInfo.create(['WGT'])
+    known = {'TH', 'OM', 'ETA', 'WGT'}
+    alphabet = {
+        'A=TH': ('A', ['TH'], 'TH'),
+        'A=A+1': ('A', ['A'], 'A + 1'),
+        'B=A*ETA': ('B', ['A', 'ETA'], 'A*exp(ETA)'),
+        'C=B+WGT': ('C', ['B', 'WGT'], 'B + WGT'),
+        'D=X': ('D', ['X'], 'X'),
+        'X=1': ('X', [], '1'),
+    }
+    keys = list(alphabet)
+    fid = _fid(Model, '_canonicalize_statements')
+    maxlen = 3 if tier == 'quick' else 4
+
+    def one(seq, via):
+        ref = _ref_statements_wellformed([(alphabet[k][0], alphabet[k][1]) for k in seq], known)
+        stats = Statements.create([Assignment.create(alphabet[k][0], alphabet[k][2]) for k in seq])
+        try:
+            if via == 'create':
+                mod = Model.create('m', parameters=params, random_variables=rvs, datainfo=di, statements=stats)
+            else:
+                mod = Model.create('m', parameters=params, random_variables=rvs, datainfo=di).replace(statements=stats)
+        except ValueError:
+            return [(fid, C_WF_STATS, not ref, 'raised ValueError although every symbol is defined before use')]
+        except Exception as e:
+            return [(fid, C_WF_STATS, False, 'raised undocumented ' + _exc(e))]
+        return [(fid, C_WF_STATS, ref and mod.statements == stats,
+                 'returned a model although a symbol is used before it is defined or never defined')]
+
+    for n in range(1, maxlen + 1):
+        for seq in itertools.product(keys, repeat=n):
+            for via in ('create', 'replace'):
+                yield f'Model.{via}(statements={list(seq)})', (lambda seq=seq, via=via: one(seq, via))
+    for what, th in [('Model.create(name=1)', lambda: Model.create(1)),
+                     ('Model.create(m, parameters=[...])', lambda: Model.create('m', parameters=[Parameter.create('A', 1)])),
+                     ('Model.create(m, statements=[...])', lambda: Model.create('m', statements=[])),
+                     ('Model.create(m, random_variables=[])', lambda: Model.create('m', random_variables=[])),
+                     ('Model.create(m, datainfo=None)', lambda: Model.create('m', datainfo=None)),
+                     ('Model.create(m, execution_steps=[])', lambda: Model.create('m', execution_steps=[])),
+                     ('Model.create(m, value_type=XYZ)', lambda: Model.create('m', value_type='XYZ')),
+                     ('Model.create(m, dependent_variables={1: 1})',
+                      lambda: Model.create('m', dependent_variables={1: 1})),
+                     ('Model.create(m).replace(nonexisting=1)', lambda: Model.create('m').replace(nonexisting=1))]:
+        yield what, (lambda what=what, th=th: _wf_expect_error(_fid(Model, 'create'), what, th))
+
+
+# ------------------------------------------------------------------------------------------------
+# registry and the check function
+# ------------------------------------------------------------------------------------------------
+def _specs():
+    from pharmpy.basic import Expr, Matrix, Unit
+    from pharmpy.internals.immutable import frozenmapping
+    from pharmpy.model import (
+        Assignment,
+        Bolus,
+        ColumnInfo,
+        Compartment,
+        CompartmentalSystem,
+        DataInfo,
+        EstimationStep,
+        ExecutionSteps,
+        Infusion,
+        JointNormalDistribution,
+        Model,
+        NormalDistribution,
+        Parameter,
+        Parameters,
+        RandomVariables,
+        SimulationStep,
+        Statements,
+        VariabilityHierarchy,
+        VariabilityLevel,
+    )
+    from pharmpy.model.execution_steps import ExecutionStep
+    from pharmpy.model.statements import Output
+
+    def td(x):
+        return x.to_dict()
+
+    ser = ('serialize', 'deserialize')
+    specs = [
+        Spec('Expr', Expr, _expr_entries, lambda x: x.serialize(), Expr.deserialize, dict_names=ser,
+             create_name='__init__'),
+        Spec('Matrix', Matrix, _matrix_entries, lambda x: x.serialize(), Matrix.deserialize, dict_names=ser,
+             create_name='__init__'),
+        Spec('Unit', Unit, _unit_entries, lambda x: x.serialize(), Unit.deserialize, dict_names=ser,
+             create_name='__init__'),
+        Spec('frozenmapping', frozenmapping, _frozenmapping_entries, create_name='__init__'),
+        Spec('Parameter', Parameter, _parameter_entries, td, Parameter.from_dict, _parameter_wf),
+        Spec('Parameters', Parameters, _parameters_entries, td, Parameters.from_dict, _parameters_wf),
+        Spec('ColumnInfo', ColumnInfo, _columninfo_entries, td, ColumnInfo.from_dict, _columninfo_wf),
+        Spec('DataInfo', DataInfo, _datainfo_entries, td, DataInfo.from_dict, _datainfo_wf),
+        Spec('Assignment', Assignment, _assignment_entries, td, Assignment.from_dict, _assignment_wf),
+        Spec('Bolus', Bolus, _bolus_entries, td, Bolus.from_dict),
+        Spec('Infusion', Infusion, _infusion_entries, td, Infusion.from_dict, _infusion_wf),
+        Spec('Compartment', Compartment, _compartment_entries, td, Compartment.from_dict, _compartment_wf),
+        Spec('Output', Output, _output_entries, td, Output.from_dict, create_name='__new__'),
+        Spec('CompartmentalSystem', CompartmentalSystem, _cs_entries, td, CompartmentalSystem.from_dict, _cs_wf),
+        Spec('Statements', Statements, _statements_entries, td, Statements.from_dict, _statements_wf),
+        Spec('VariabilityLevel', VariabilityLevel, _varlevel_entries, td, VariabilityLevel.from_dict),
+        Spec('VariabilityHierarchy', VariabilityHierarchy, _varhier_entries, td, VariabilityHierarchy.from_dict,
+             _varhier_wf),
+        Spec('NormalDistribution', NormalDistribution, _normal_entries, td, NormalDistribution.from_dict, _normal_wf),
+        Spec('JointNormalDistribution', JointNormalDistribution, _joint_entries, td,
+             JointNormalDistribution.from_dict, _joint_wf),
+        Spec('RandomVariables', RandomVariables, _rvs_entries, td, RandomVariables.from_dict, _rvs_wf),
+        Spec('ExecutionStep', ExecutionStep, _execstep_entries, create_name='__init__'),
+        Spec('EstimationStep', EstimationStep, _eststep_entries, td, EstimationStep.from_dict, _eststep_wf),
+        Spec('SimulationStep', SimulationStep, _simstep_entries, td, SimulationStep.from_dict, _simstep_wf),
+        Spec('ExecutionSteps', ExecutionSteps, _execsteps_entries, td, ExecutionSteps.from_dict),
+        Spec('Model', Model, _model_entries, lambda x: Model.to_dict(x), Model.from_dict, _model_wf),
+    ]
+    specs[-1].extra_unary = _model_extra_unary
+    return specs
+
+
+def _run_spec_by_name(args):
+    name, tier = args
+    warnings.filterwarnings('ignore')
+    spec = next(s for s in _specs() if s.name == name)
+    return (name,) + _check_spec(spec, tier)
+
+
+def bounded_value_classes(tier, only=None):
+    names = [s.name for s in _specs()]
+    if only:
+        names = [n for n in names if n in only.split(',')]
+    results = [_run_spec_by_name((n, tier)) for n in names]
+    cases = nontriv = 0
+    fails, samples, per = [], [], []
+    for name, c, nt, f, smp in results:
+        cases += c
+        nontriv += nt
+        per.append(f'{name}:{c}')
+        fails.extend(f.values())
+        if len(samples) < 3 and smp and name in ('Parameter', 'CompartmentalSystem', 'Model'):
+            samples.append(smp[0])
+    return {
+        'cases': cases,
+        'nontrivial': nontriv,
+        'bound': 'per value class (25 classes): a base argument set plus one-field perturbations and same-value '
+                 'rebuilds (CompartmentalSystem: all 6 compartment insertion orders x '
+                 + ('5' if tier == 'quick' else 'all 24') + ' flow insertion orders; Expr: all unary/binary '
+                 'combinations of 7 atoms' + ('' if tier == 'quick' else ' to depth 2') + '; Model: pheno + 30 '
+                 'one-step variants), all ordered pairs per class; well-formedness: Parameter.create over an '
+                 '8x7x8 (lower, init, upper) grid, all sequences of <=' + ('3' if tier == 'quick' else '4')
+                 + ' elements over 4-6 element alphabets for Parameters, RandomVariables, VariabilityHierarchy '
+                 'and Model statements, all operator combinations of <=2-element collections',
+        'samples': samples,
+        'per_class_cases': ' '.join(per),
+        'fails': fails,
+    }
+
+
+def bounded_value_classes_replay(rp):
+    case = rp['case']
+    spec = next(s for s in _specs() if s.name == case['cls'])
+    key = (case['fid'], case['clause'])
+    for tier in ('quick', 'thorough'):
+        if case['kind'] == 'wf':
+            for case_id, thunk in spec.wf(tier):
+                if case_id == case['x']:
+                    try:
+                        results = thunk()
+                    except Exception as e:
+                        return False, 'internal error ' + _exc(e)
+                    for fid, clause, ok, detail in results:
+                        if (fid, clause) == key and not ok:
+                            return False, f'{case_id}: {detail}'
+                    return True, 'ok'
+            continue
+        ents = {e.label: e for e in spec.entries(tier)}
+        if case['x'] not in ents or (case.get('y') and case['y'] not in ents):
+            continue
+        if case['kind'] == 'build':
+            try:
+                ents[case['x']].thunk()
+            except Exception as e:
+                return False, f'building {case["x"]} raised ' + _exc(e)
+            return True, 'ok'
+        ex = ents[case['x']]
+        ex.obj = ex.thunk()
+        if case['kind'] == 'unary':
+            base = None
+            if ex.same_as:
+                base = ents[ex.same_as].thunk()
+            for fid, clause, ok, detail in _unary(spec, ex.obj, ex, base):
+                if (fid, clause) == key and not ok:
+                    return False, f'x = {ex.label}: {detail}'
+            return True, 'ok'
+        ey = ents[case['y']]
+        ey.obj = ey.thunk()
+        res, _ = _pairwise(spec, [ex, ey])
+        for fid, clause, ok, detail, i, j in res:
+            if (fid, clause) == key and not ok:
+                return False, f'x = {[ex, ey][i].label}, y = {[ex, ey][j].label}: {detail}'
+        if case['clause'] == C_TRANS:
+            # needs the whole corpus
+            allents, _ = _build(spec, tier)
+            res, _ = _pairwise(spec, allents)
+            for fid, clause, ok, detail, i, j in res:
+                if (fid, clause) == key and not ok:
+                    return False, detail
+        return True, 'ok'
+    return True, 'case not found in the corpus'
